@@ -135,7 +135,8 @@ class Summaries:
         v = ctx.args[0]
         if sty.get("k") == "adt" and sty["def"] == RESULT:
             F = sty["args"][1]
-            E = rty["args"][1]
+            # (a residual type left as `<R as Try>::Residual` - generic code over R - is R's own: same error type)
+            E = rty["args"][1] if rty.get("k") == "adt" and len(rty.get("args") or []) > 1 else F
             def f(var, fs):
                 e = fs[0]
                 if T.tkey(F) != T.tkey(E):
@@ -786,6 +787,11 @@ class Summaries:
             xr = self.exact_next(ctx, st, ctx.args[0], itv)
             if xr is not None:
                 return xr
+        if ctx.callee["name"] == "next" and isinstance(itv, Agg) and itv.name in ("core::iter::map", "core::iter::copied", "core::iter::cloned") \
+                and itv.fields and isinstance(ctx.args[0], Ptr):
+            z = self.adaptor_next(ctx, st, itv)
+            if z is not None:
+                return z
         if ctx.callee["name"] == "next" and isinstance(itv, Agg) and itv.name == "core::iter::zip" and len(itv.fields) == 2 \
                 and isinstance(ctx.args[0], Ptr):
             z = self.zip_next(ctx, st, itv)
@@ -976,6 +982,62 @@ class Summaries:
                 return [(s2, some(self.deref_arg(ctx, s2, x)))]
             return [(s3, some(v)) for s3, v in self.call_f(ctx, s2, f[1], [x])]
         return None
+
+    def s_iter_consumer(self, ctx, st):
+        """core::iter::traits::iterator::Iterator::try_for_each | core::iter::traits::iterator::Iterator::for_each | core::iter::traits::iterator::Iterator::any | core::iter::traits::iterator::Iterator::all | core::iter::traits::iterator::Iterator::fold"""
+        if ctx.r["kind"] == "body":
+            return None
+        ex = ctx.ex
+        name = ctx.callee["name"]
+        rec = ex.F.bodies.get("aim_prelude::" + name)
+        if rec is None:
+            return None
+        callee = {"def": rec["id"], "name": name, "kind": "Fn", "args": list(ctx.gargs), "container": {"kind": "mod"}}
+        return ex.call(st, ctx.fr, callee, {}, list(ctx.args), ctx.dest_ty, ctx.span)
+
+    def s_from_output(self, ctx, st):
+        """core::ops::try_trait::Try::from_output"""
+        sty = ctx.gargs[0]
+        if sty.get("k") != "adt":
+            return None
+        if sty["def"] == RESULT:
+            return [(st, Agg("adt", RESULT, 0, [ctx.args[0]], ctx.ex.normalize(sty)))]
+        if sty["def"] == OPTION:
+            return [(st, Agg("adt", OPTION, 1, [ctx.args[0]], ctx.ex.normalize(sty)))]
+        return None
+
+    def adaptor_next(self, ctx, st, itv):
+        """Map / Copied / Cloned::next over an iterator that is not modelled exactly: one `next` of the inner iterator
+        (an event of its own), then the closure / the dereference on the item"""
+        ex = ctx.ex
+        p = ctx.args[0]
+        dt = ex.normalize(ctx.dest_ty) if ctx.dest_ty is not None else None
+        inner = itv.fields[0]
+        recv = inner if isinstance(inner, Ptr) else Ptr(p.root, tuple(p.path) + (("f", 0, None),), None, getattr(inner, "ty", None), True)
+        ity = recv.pty if isinstance(inner, Ptr) and recv.pty is not None else getattr(inner, "ty", None)
+        r2 = dict(ctx.r)
+        if ity is not None:
+            r2["self_ty"] = ity
+            r2["args"] = [ity]
+        c2 = type(ctx)(ex, ctx.fr, ctx.callee, r2, [recv], None, ctx.span, ctx.key)
+        out = []
+        for (s1, ra) in self.s_iter_next(c2, st):
+            try:
+                ca = ex.variant_cond(ra, 1)
+            except Exception:
+                return None
+            s_none = s1.fork()
+            if s_none.facts.assume(ONE - ca, 1):
+                out.append((s_none, Agg("adt", OPTION, 0, [], dt)))
+            if not s1.facts.assume(ca, 1):
+                continue
+            x = ex.expand_sym(ra, 1).fields[0] if isinstance(ra, SymV) else ra.fields[0]
+            if itv.name == "core::iter::map":
+                for s2, v in self.call_f(ctx, s1, itv.fields[1], [x]):
+                    out.append((s2, Agg("adt", OPTION, 1, [v], dt)))
+            else:
+                out.append((s1, Agg("adt", OPTION, 1, [self.deref_arg(ctx, s1, x)], dt)))
+        return out
 
     def zip_next(self, ctx, st, itv):
         """core::iter::Zip::next, exactly as the library does it: pull from the first iterator; if it is exhausted
